@@ -552,6 +552,7 @@ package nsqd
 //@   requires n != nil
 //   (round 7) Main runs on a daemon built by New (New/[built]): what its goroutines need is checked where they are started
 //@   requires[built-by-New] r7Built(n)
+//@   requires[selection-count-validated-by-New] curOpts(n).QueueScanSelectionCount >= 1
 //@   ensures[one-server-per-listener] r5FServersBuilt == old(r5FServersBuilt) + (n.httpListener != nil ? 1 : 0) + (n.httpsListener != nil ? 1 : 0)
 //@   ensures[https-server-enforces-tls] n.httpsListener != nil ==> r5FServerFor == n && r5FServerTLSEnabled && r5FServerTLSRequired
 //@   ensures[plain-server-gate-follows-the-option] n.httpsListener == nil && n.httpListener != nil ==> r5FServerFor == n && !r5FServerTLSEnabled && r5FServerTLSRequired == (curOpts(n).TLSRequired == TLSRequired)
